@@ -2,6 +2,7 @@
 # seed_matrix.sh [tier] : run every kept seeded change against its property's check; writes seeded/MATRIX.txt
 TIER="${1:-quick}"
 cd /verif
+export VERIF_NO_EVIDENCE=1
 OUT=seeded/MATRIX.$TIER.txt
 : > $OUT.tmp
 [ -z "$(git -C /repo status --porcelain)" ] || { echo "/repo not clean"; exit 3; }
